@@ -162,3 +162,32 @@ CHECKS['C07'] = dict(
     guards=dict(classes=['LF:interval:outsizeodd', 'LF:interval:outsizeeven', 'LF:point:outsizeodd', 'LF:empty:outsizeeven', 'cross']),
     assumptions=[A_SHAPE, A_POLY],
 )
+
+CHECKS['C08'] = dict(
+    title='Operations across different grids are refused, never computed',
+    level='exploration',
+    technique='bounded-exhaustive enumeration of (entry point x way the grids differ x window placement on both sides) on the real code; oracle = exception type and code, argument snapshots, and equality with the shared-instance result for equal grids in distinct objects',
+    level_text='20 entry points (binary operators and in-place forms, linearCombination with the odd grid at every position, bilinear forms plain and with spline factor, linear form and operator application with spline factor, integrate<3>, generator with supplied grid) x every perturbation of a 4-point (thorough 5-point) grid (each point moved, extra point at front/back/inside every gap, every proper prefix and suffix, equal copy) x every window on both sides, including windows that agree exactly where the supports meet and interval-free arguments.',
+    level_note='Trusted: the expected-outcome rule written in checks/c08_grids.cpp from the statement. For spline factors a throw is required only if the operand has an interval (DESIGN.md 5). integrate<n> is exercised in double (boost quadrature), judged on refusal and on equality with the shared-instance result only.',
+    units=std_units('checks/c08_grids.cpp'),
+    rule='cases = (order pair, grid variant, entry point, window on G, window on G\'). Non-trivial = grids differ logically and a refusal is required.',
+    bounds=dict(quick='4-point base grid, order pairs (1,1),(1,0)', thorough='5-point base grid, 7 order pairs from {0,1,2}^2'),
+    guards=dict(classes=['equal-grids:computed', 'different:must-refuse:both-intervals', 'different:must-refuse:interval-free-arg', 'different:either:value',
+                         'different:must-refuse:integrate', 'generator:accepted', 'generator:refused']),
+    assumptions=[A_SHAPE],
+)
+
+CHECKS['C01'] = dict(
+    title='Generated basis functions are exactly the Cox-de Boor B-splines of the knots',
+    level='exploration',
+    technique='bounded-exhaustive enumeration of knot vectors (every multiplicity composition x gap pattern x offset) and orders on the real generator with an exact rational scalar; exact comparison with an independent Cox-de Boor recursion in the global monomial basis plus recursion-independent oracles (support, partition of unity, one-sided derivatives)',
+    level_text='Every non-decreasing knot vector up to length 7 (thorough 9): all 2^(m-1) multiplicity compositions (simple knots, interior/left/right repeats, multiplicity beyond p+1, all-equal vectors, m = p+1, m <= p), all gap patterns over {1, 1/2} (thorough {1,1/2,3}), offsets {0,-7/2,100}, orders 0..4 (0..6), through three construction routes. Count = m-p-1, every function equals the reference B-spline on every interval, vanishes outside [t_i,t_{i+p+1}], the functions sum to 1 inside [t_p,t_{m-p-1}] and are C^{p-mu} at every knot.',
+    level_note='Trusted: GMP; the 20-line reference recursion in engine/refpp.h (self-checked; two further oracles do not use it). Knot values outside the spacing alphabet enter rationally and are covered by A-shape only.',
+    units=std_units('checks/c01_generator.cpp'),
+    rule='cases = (knot vector, order). Non-trivial = generation succeeds with at least one function.',
+    bounds=dict(quick='knot vectors of length <= 7, gaps {1,1/2}, 3 offsets, orders 0..4', thorough='length <= 9, gaps {1,1/2,3}, orders 0..6'),
+    guards=dict(classes=['refused:too-few-knots', 'refused:one-distinct-value', 'valid:zero-functions', 'valid:functions', 'valid:functions:interior-repeat', 'valid:functions:left-repeat',
+                         'valid:functions:right-repeat', 'valid:functions:interior-repeat:mult>p+1', 'valid:functions:interior-repeat:left-repeat:right-repeat'],
+                counters=['unity_intervals', 'continuity_conditions']),
+    assumptions=[A_SHAPE],
+)
